@@ -312,6 +312,18 @@ pub fn parse_expr(iter: &mut Iter<'_>) -> Expr {
     parse_add(iter)
 }
 
+/// Records a problem with the text itself as an entry of its own, so
+/// that loading the definitions reports it along with the other
+/// problems.
+fn syntax_error(map: &mut Vec<DefEntry>, line: usize, message: String) {
+    map.push(DefEntry {
+        name: format!("line {} #{}", line, map.len()),
+        def: Rc::new(Def::Error { message }),
+        doc: None,
+        category: None,
+    });
+}
+
 pub fn parse(iter: &mut Iter<'_>) -> Defs {
     let mut map = vec![];
     let mut line = 1;
@@ -334,12 +346,14 @@ pub fn parse(iter: &mut Iter<'_>) -> Defs {
                             });
                             category = Some(short);
                         }
-                        _ => eprintln!("Malformed category directive"),
+                        _ => {
+                            syntax_error(&mut map, line, "Malformed category directive".to_owned())
+                        }
                     }
                 }
                 Token::Ident(ref s) if s == "endcategory" => {
                     if category.is_none() {
-                        eprintln!("Stray endcategory directive");
+                        syntax_error(&mut map, line, "Stray endcategory directive".to_owned());
                     }
                     category = None
                 }
@@ -348,11 +362,11 @@ pub fn parse(iter: &mut Iter<'_>) -> Defs {
                         (Token::Ident(subst), Token::Ident(sym)) => {
                             symbols.insert(subst, sym);
                         }
-                        _ => eprintln!("Malformed symbol directive"),
+                        _ => syntax_error(&mut map, line, "Malformed symbol directive".to_owned()),
                     }
                 }
                 Token::Ident(ref s) => {
-                    eprintln!("Unknown directive !{s}");
+                    syntax_error(&mut map, line, format!("Unknown directive !{s}"));
                     loop {
                         match iter.peek().cloned().unwrap() {
                             Token::Newline | Token::Eof => break,
@@ -363,7 +377,11 @@ pub fn parse(iter: &mut Iter<'_>) -> Defs {
                     }
                 }
                 _ => {
-                    eprintln!("syntax error: expected ident after !");
+                    syntax_error(
+                        &mut map,
+                        line,
+                        "syntax error: expected ident after !".to_owned(),
+                    );
                     loop {
                         match iter.peek().cloned().unwrap() {
                             Token::Newline | Token::Eof => break,
@@ -463,7 +481,11 @@ pub fn parse(iter: &mut Iter<'_>) -> Defs {
                                 }
                                 Token::RightBrace => break,
                                 x => {
-                                    eprintln!("Expected property, got {:?}", x);
+                                    syntax_error(
+                                        &mut map,
+                                        line,
+                                        format!("Expected property, got {:?}", x),
+                                    );
                                     break;
                                 }
                             };
@@ -472,10 +494,13 @@ pub fn parse(iter: &mut Iter<'_>) -> Defs {
                                     let input_name = match iter.next().unwrap() {
                                         Token::Ident(name) => name,
                                         x => {
-                                            eprintln!(
-                                                "Expected property input \
-                                                 name, got {:?}",
-                                                x
+                                            syntax_error(
+                                                &mut map,
+                                                line,
+                                                format!(
+                                                    "Expected property input name, got {:?}",
+                                                    x
+                                                ),
                                             );
                                             break;
                                         }
@@ -493,7 +518,11 @@ pub fn parse(iter: &mut Iter<'_>) -> Defs {
                                 }
                                 Token::Ident(name) => name,
                                 x => {
-                                    eprintln!("Expected property input name, got {:?}", x);
+                                    syntax_error(
+                                        &mut map,
+                                        line,
+                                        format!("Expected property input name, got {:?}", x),
+                                    );
                                     break;
                                 }
                             };
@@ -501,14 +530,22 @@ pub fn parse(iter: &mut Iter<'_>) -> Defs {
                             match iter.next().unwrap() {
                                 Token::Slash => (),
                                 x => {
-                                    eprintln!("Expected /, got {:?}", x);
+                                    syntax_error(
+                                        &mut map,
+                                        line,
+                                        format!("Expected /, got {:?}", x),
+                                    );
                                     break;
                                 }
                             }
                             let input_name = match iter.next().unwrap() {
                                 Token::Ident(name) => name,
                                 x => {
-                                    eprintln!("Expected property input name, got {:?}", x);
+                                    syntax_error(
+                                        &mut map,
+                                        line,
+                                        format!("Expected property input name, got {:?}", x),
+                                    );
                                     break;
                                 }
                             };
@@ -545,7 +582,7 @@ pub fn parse(iter: &mut Iter<'_>) -> Defs {
                     }
                 }
             }
-            x => eprintln!("Expected definition on line {}, got {:?}", line, x),
+            x => syntax_error(&mut map, line, format!("Expected definition, got {:?}", x)),
         };
     }
 
